@@ -31,6 +31,15 @@ var c02Cases = []faCase{
 	{name: "repeat-equal",
 		patch: "@@\nvar x expression\n@@\n-eq(x, x, x)\n+one(x)\n",
 		minus: "package p\n\nvar v = ⟦eq(«x:a.b(c, 1)», «x:a.b(c, 1)», «x:a.b(c, 1)»)⟧\n"},
+	{name: "repeat-composite-literal",
+		patch: "@@\nvar x expression\n@@\n-eq(x, x)\n+one(x)\n",
+		minus: "package p\n\nvar v = ⟦eq(«x:[]int{1, 2}», «x:[]int{1, 2}»)⟧\n"},
+	{name: "repeat-func-literal",
+		patch: "@@\nvar x expression\n@@\n-eq(x, x)\n+one(x)\n",
+		minus: "package p\n\nvar v = ⟦eq(«x:func() int { return 1 }», «x:func() int { return 1 }»)⟧\n"},
+	{name: "repeat-key-value",
+		patch: "@@\nvar x expression\n@@\n-eq(x, x)\n+one(x)\n",
+		minus: "package p\n\nvar v = ⟦eq(«x:T{A: 1, b: k}», «x:T{A: 1, b: k}»)⟧\n"},
 	{name: "repeat-paren-depth", nonInstance: true,
 		patch: "@@\nvar x expression\n@@\n-eq(x, x)\n+one(x)\n",
 		minus: "package p\n\nvar v = ⟦eq(«x:a», «x:(a)»)⟧\n"},
